@@ -18,7 +18,7 @@ func init() {
 		Property: "C18",
 		Explanation: "SEE/PATH rules on Monitor.handle: R-C18-1 exactly one MonMessagesReceivedTotal(1, iface, host, Type().String()) on every path; " +
 			"R-C18-2 on the RA arm each gauge's value and labels come from the like-named field of the received RA / prefix option (managed⇐ManagedConfiguration, other⇐OtherConfiguration, default-route expiry emitted iff RouterLifetime != 0 as now.Add(RouterLifetime).Unix(); per prefix on-link⇐OnLink, autonomous⇐AutonomousAddressConfiguration, preferred/valid expiry ⇐ now.Add(Preferred/ValidLifetime).Unix(), labels (iface, cidrStr(Prefix,PrefixLength), host)), one clock read per message; " +
-			"R-C18-3 the handler has no error result and no panic exit, cidrStr is netip.PrefixFrom(addr,int(len)).String(), the callback passes the zone-less host string R-C18-3 also: no panic statement and no always-panicking helper is reachable from Monitor.handle; R-C18-4 every Mon* field of Metrics is assigned, in NewMetrics only, the backend's own Counter/Gauge function with the documented label names (no wrapper in between). R-C18-2 identifies the prefix loop as the loop with an iteration that sets a monitor series; at least one exists.",
+			"R-C18-3 the handler has no error result and no panic exit, cidrStr is netip.PrefixFrom(addr,int(len)).String(), the callback passes the zone-less host string R-C18-3 also: no panic statement and no always-panicking helper is reachable from Monitor.handle; R-C18-4 every Mon* field of Metrics is assigned, in NewMetrics only, the backend's own Counter/Gauge function with the documented label names (no wrapper in between). R-C18-2 identifies the prefix loop as the loop with an iteration that sets a monitor series; at least one exists. The receive-loop rules R-C09-2/R-C09-3 are evaluated here as shared rules (messages that fail validation never consume the retry budget, so the monitor keeps running).",
 		Assumptions: []string{"Go type checker and go/ssa construction are correct", "pick[T] selects exactly the options of type T (checked type assertion)"},
 		NotCovered:  []string{"overflow of now.Add for infinite lifetimes (a value question)", "label cardinality"},
 		Run:         runC18,
